@@ -93,9 +93,12 @@ def small_case(draw):
 
 @st.composite
 def big_case(draw):
-    return {'size': 'big', 'n': draw(st.integers(1001, 1100)), 'bad_at': draw(st.integers(1001, 1100)),
-            'on_error': draw(st.sampled_from(['raise', 'drop', 'ignore', 'clear'])),
-            'limit': draw(st.sampled_from([None, 1000, 1001, 5000]))}
+    c = {'size': 'big', 'n': draw(st.integers(1001, 1100)), 'bad_at': draw(st.integers(1001, 1100)),
+         'on_error': draw(st.sampled_from(['raise', 'drop', 'ignore', 'clear'])),
+         'limit': draw(st.sampled_from([None, 1000, 1001, 5000]))}
+    if c['limit'] in (1000, 1001) and draw(st.booleans()):
+        c['bad_at'] = c['limit'] + 1          # the first row that is NOT asked for is the offending one
+    return c
 
 
 @st.composite
